@@ -17,6 +17,11 @@ CHECKS = {
          "On every input of the C01 text-level spaces (and the scaling families) both entry points' trees are walked completely: root kind and range, leaves spelling the input byte for byte, every node's children tiling its range without gap or overlap, empty nodes having empty ranges.",
          "Inputs on which parsing does not return are C01's and are skipped (counted). rowan's range arithmetic is trusted.",
          "DESIGN.md section 7, C02"),
+ "C03": ("exploration",
+         "bounded exhaustive enumeration of syntactically clean programs (token soup, wider grammar in every context, single semantic faults over all sites) through the full analysis in isolated worker processes",
+         "Every token sequence of <= 3 (thorough 4: 7e7) tokens that the implementation parses without diagnostics, ~520 statements of the wider grammar (all operators, literal kinds, blocks, box, arrays, extern, defcal, cal, old-style declarations, hardware qubits, ill-typed and ill-scoped uses) alone and inside every one of 16 contexts (thorough: two levels), every leaf template in every context with and without its declarations, and single semantic faults exhaustive over sites (each prelude declaration deleted, duplicated, retyped to each of 10 types, turned into a qubit, made const; gate and subroutine calls with wrong arity under each modifier) are analysed; a panic, a dead or stalled worker, or a scope stack not back at the global scope is a violation.",
+         "Which programs are syntactically clean is decided by the implementation. 24 panic sites are recorded as known findings keyed by panic message + source text of the panicking line + trigger token; five were repaired by fix: commits. Hook oq3_verif gives the scope depth.",
+         "DESIGN.md section 7, C03"),
  "C04": ("exploration",
          "bounded exhaustive enumeration of derivations of a reference grammar, each under every printing, through both parse entry points",
          "All spines of <= 2 (thorough 3, and 4-5 over the reduced context set) compound-statement contexts (16 contexts: each body of if/else/while/for/case/default/gate/def as block or single statement) around ~65 leaf statement templates, all sequences of 2 (thorough 3) statements, all two- and three-operator expression trees over 19 binary and 3 unary operators in 12 expression positions, printed with minimal, full and redundant parentheses and 7 uniform separator flavours; any diagnostic of SourceFile::parse or parse_check_lex is a violation. Every context x construct pair is present by construction.",
